@@ -13,13 +13,13 @@ RULE = ("(diff) for both curves, scalars a, b (boundary and uniform) and random 
         "(split) for both optimized modules and lists of 1..6 scalar pairs: final_exponentiate(prod pairing(Q_i, "
         "P_i, final_exponentiate=False)) == prod pairing(Q_i, P_i); (fexp) for FQ12 elements 0, 1, w, w^11, "
         "sparse (k of 12 coefficients) and uniform: optimized-BLS final_exponentiate(x) == x ** ((p^12-1)//r) and "
-        "exp_by_p(x) == x ** p, every module's final_exponentiate == the model's plain power. Non-trivial = a "
+        "exp_by_p(x) == x ** p, every module's final_exponentiate == the model's plain power; (interleaved) the two optimized curves' exponentiation entry points called alternately in one process in a drawn order, each result compared with the plain power. Non-trivial = a "
         "differential case with a*b not in {0, 1, -1} mod r, a split case with >= 2 factors, an exponentiation "
         "case with x not in {0, 1}; distinct by input digest")
 ASSUMPTIONS = ["reference pairings are the specification for the optimized ones (their algebraic laws are C05's)",
                "model extension-field power (vf/model/fields.py) for the plain exponentiation"]
 ENGINE = "hypothesis (differential and metamorphic)"
-_REQ = ["diff:bn128", "diff:bls12_381", "diff:scaled", "split:optimized_bn128", "split:optimized_bls12_381",
+_REQ = ["interleaved:both_curves", "diff:bn128", "diff:bls12_381", "diff:scaled", "split:optimized_bn128", "split:optimized_bls12_381",
         "split:n>=2", "fexp:optimized_bls12_381", "fexp:exp_by_p", "fexp:x=0", "fexp:sparse", "fexp:model_power",
         "fexp:bn128", "fexp:optimized_bn128", "fexp:bls12_381"]
 REQUIRED_LABELS = {"quick": _REQ, "thorough": _REQ}
@@ -102,7 +102,33 @@ def o_fexp(ctx, case):
     ctx.sample(case, f"fexp:{name}")
 
 
-ORACLES = {"diff": o_diff, "split": o_split, "fexp": o_fexp}
+def o_interleaved(ctx, case):
+    """Both curves' exponentiation entry points used alternately inside one process, in a drawn
+    order: each result must equal the plain power whatever ran before it (no table, cache or class
+    attribute may be shared between the curves)."""
+    ctx.begin("interleaved", case)
+    seq = case["seq"]
+    for pos, (name, x) in enumerate(seq):
+        C = mc.CURVES[pc.CURVE_OF[name]]
+        M = pc.pm(name)
+        lx = mod(name).FQ12(list(x))
+        got = M.final_exponentiate(lx)
+        want = C.F12.pow(C.F12.el(tuple(x)), (C.p ** 12 - 1) // C.r) if case.get("model") else None
+        plain = lx ** ((C.p ** 12 - 1) // C.r)
+        ctx.check(pc.coeffs(got) == pc.coeffs(plain), "interleaved", f"final_exponentiate:{name}", case,
+                  f"{name}.final_exponentiate at position {pos} of {[n for n, _ in seq]} != plain power")
+        if want is not None:
+            ctx.check(tuple(pc.coeffs(got)) == want, "interleaved", f"final_exponentiate_vs_model:{name}", case,
+                      f"{name}.final_exponentiate at position {pos} differs from the model power")
+        if hasattr(M, "exp_by_p"):
+            ctx.check(pc.coeffs(M.exp_by_p(lx)) == pc.coeffs(lx ** C.p), "interleaved", f"exp_by_p:{name}", case,
+                      f"{name}.exp_by_p at position {pos} of {[n for n, _ in seq]} != x ** p")
+    ctx.label("interleaved:both_curves")
+    ctx.nontrivial(("i", seq))
+    ctx.sample({"seq": [[n, x[:3] + ["..."]] for n, x in seq]}, "interleaved")
+
+
+ORACLES = {"diff": o_diff, "split": o_split, "fexp": o_fexp, "interleaved": o_interleaved}
 
 
 def s_diff(curve):
@@ -159,9 +185,21 @@ def t_fexp(ctx, module, shard, n, model):
     drive(ctx, f"fexp{name}{shard}", s_fexp(name, model), lambda c: o_fexp(ctx, c), n, ex, shrink=False)
 
 
+def t_interleaved(ctx, shard, n):
+    names = ("optimized_bn128", "optimized_bls12_381")
+
+    def mk(t):
+        order, xs = t
+        return {"seq": [[names[i], xs[k][names[i]]] for k, i in enumerate(order)], "model": True}
+    xpair = st.fixed_dictionaries({nm: s_x(mc.CURVES[pc.CURVE_OF[nm]].p) for nm in names})
+    strat = st.tuples(st.sampled_from([[0, 1, 0], [1, 0, 1], [0, 1, 1, 0], [1, 0, 0, 1]]),
+                      st.lists(xpair, min_size=4, max_size=4)).map(mk)
+    drive(ctx, f"inter{shard}", strat, lambda c: o_interleaved(ctx, c), n, shrink=False)
+
+
 def tasks(tier):
     q = tier == "quick"
-    out = []
+    out = [Task(f"interleaved-{s}", "t_interleaved", shard=s, n=3 if q else 120) for s in range(2)]
     for s in range(4):
         for curve in ("bn128", "bls12_381"):
             out.append(Task(f"diff-{curve}-{s}", "t_diff", curve=curve, shard=s, n=3 if q else 90))
